@@ -228,7 +228,10 @@ func TestC10(t *testing.T) {
 			t.Fatalf("world: %v", err)
 		}
 		tb := s.Tables[0]
-		pool := &kit.Pool{}
+		pool := &kit.Pool{Big: rapid.IntRange(0, 19).Draw(t, "big") == 0}
+		if pool.Big {
+			kit.Label("C10", "big-mode-case")
+		}
 		aRow := kit.GenRow(t, tb, pool, true)
 		a := w.ModelFromRow(tb.Name, kit.MkUUID(1), aRow)
 		// element order of native slices is arbitrary: draw it
